@@ -15,8 +15,9 @@ import (
 // realFS materialises the virtual tree under a fresh temporary directory so
 // that the exported API (default file I/O, real directory listing) is exercised.
 type realFS struct {
-	root string
-	orig map[string]string
+	root  string
+	orig  map[string]string
+	links map[string]string // symbolic links put there by the test: unchanged while they are the same link
 }
 
 func newRealFS(fs *faultFS) *realFS {
@@ -24,7 +25,7 @@ func newRealFS(fs *faultFS) *realFS {
 	if err != nil {
 		panic(err)
 	}
-	r := &realFS{root: root, orig: map[string]string{}}
+	r := &realFS{root: root, orig: map[string]string{}, links: map[string]string{}}
 	for _, d := range fs.dirs {
 		if err := os.MkdirAll(filepath.Join(root, d), 0700); err != nil {
 			panic(err)
@@ -41,12 +42,8 @@ func newRealFS(fs *faultFS) *realFS {
 			if err := os.Symlink(target, p); err != nil {
 				panic(err)
 			}
-			tp := filepath.Join(filepath.Dir(f.path), target)
-			for _, g := range fs.files {
-				if g.path == tp {
-					r.orig[f.path] = string(g.data)
-				}
-			}
+			r.links[f.path] = target
+			r.orig[f.path] = string(f.data)
 			continue
 		}
 		if err := ioutil.WriteFile(p, f.data, 0600); err != nil {
@@ -75,6 +72,11 @@ func (r *realFS) changedList() string {
 		}
 		v := r.virt(p)
 		seen[v] = true
+		if want, isLink := r.links[v]; isLink {
+			if got, lerr := os.Readlink(p); lerr == nil && got == want {
+				return nil
+			}
+		}
 		b, _ := ioutil.ReadFile(p)
 		if o, had := r.orig[v]; !had || o != string(b) {
 			out = append(out, hx(v)+":"+hx(string(b)))
